@@ -58,6 +58,36 @@ fn main() {
             let code = run_check(check.as_ref(), &cfg);
             std::process::exit(code);
         }
+        Some("template") => {
+            // a sample history in the JSON form `script` reads
+            use steps::*;
+            let pol = IoPolicy { pend_write: Pend::Always, ..IoPolicy::default() };
+            let mut c = genr::benign_connect(false);
+            c.policy = pol;
+            let st = vec![
+                Step::Connect(c),
+                Step::Disconnect(DiscSpec { reason: None, props: None, cancel_at: Some(1) }),
+                Step::Subscribe(SubSpec { filters: vec![FilterSpec { filter: "a/b".into(), max_qos: 1, no_local: false, rap: false, rh: 0 }], props: vec![], cancel_at: None }),
+                checks::pubq(1, "t", 1, 3),
+                Step::DropConn,
+                Step::Connect(genr::benign_connect(true)),
+                checks::poll0(),
+                Step::Broker(BrokerAct::Close),
+                Step::Advance(1_000_000),
+            ];
+            println!("{}", serde_json::to_string_pretty(&serde_json::json!({"cfg": CaseCfg::default(), "steps": st})).unwrap());
+        }
+        Some("script") => {
+            // run one hand-written history and print it: script <file.json> ({"cfg": CaseCfg, "steps": [Step..]})
+            let f = args.get(2).unwrap_or_else(|| usage());
+            let v: serde_json::Value = serde_json::from_str(&std::fs::read_to_string(f).expect("read")).expect("json");
+            let cfg: steps::CaseCfg = serde_json::from_value(v["cfg"].clone()).expect("cfg");
+            let st: Vec<steps::Step> = serde_json::from_value(v["steps"].clone()).expect("steps");
+            let (log, world) = checks::run_script(&cfg, st, 1);
+            for l in trace::render(&log, &world.borrow(), 2000) {
+                println!("{}", l);
+            }
+        }
         Some("shard") => {
             // single-threaded slice of one workload (used under Miri): shard <ID> <workload> <start> <count> [seed]
             let id = args.get(2).unwrap_or_else(|| usage());
